@@ -128,7 +128,7 @@ func c13(c *Ctx) {
 		for _, w := range wcalls {
 			wv, _ := w.(*ssa.Call)
 			fromW := func(v ssa.Value) bool {
-				for _, a := range origins(v) {
+				for _, a := range errRootOrigins(v, 3) {
 					switch x := a.V.(type) {
 					case *ssa.Extract:
 						if x.Tuple == ssa.Value(wv) {
@@ -155,7 +155,7 @@ func c13(c *Ctx) {
 					later := false
 					for _, w2 := range wcalls {
 						if w2v, ok := w2.(*ssa.Call); ok && w2 != w {
-							for _, a := range origins(rv) {
+							for _, a := range errRootOrigins(rv, 3) {
 								if ex, ok := a.V.(*ssa.Extract); ok && ex.Tuple == ssa.Value(w2v) {
 									later = true
 								}
@@ -168,7 +168,7 @@ func c13(c *Ctx) {
 					if later {
 						continue
 					}
-					cons := "error return after " + calleeShort(w) + " in " + shortName(f) + " from " + atomsString(origins(rv))
+					cons := "error return after " + calleeShort(w) + " in " + shortName(f) + " from " + atomsString(errRootOrigins(rv, 3))
 					if why, ok := c13Suppressed(p, cons); ok {
 						r.OK("C13.R1", cons, p.Pos(posOf(ret)), "suppressed: "+why)
 						continue
@@ -837,4 +837,68 @@ func accessorChain(v ssa.Value) (string, string) {
 	}
 	sort.Strings(nil)
 	return strings.Join(names, "."), root
+}
+
+// errRootOrigins is origins(v) where an error built by fmt.Errorf around other errors (the %w / %v operands) is replaced by
+// the origins of those wrapped errors: wrapping an error does not change where the failure came from.
+func errRootOrigins(v ssa.Value, depth int) []Atom {
+	var out []Atom
+	errT := types.Universe.Lookup("error").Type().Underlying().(*types.Interface)
+	for _, a := range origins(v) {
+		cl, ok := a.V.(*ssa.Call)
+		if !ok || depth <= 0 || calleeName(cl.Common()) != "fmt.Errorf" {
+			out = append(out, a)
+			continue
+		}
+		var wrapped []ssa.Value
+		for _, av := range variadicArgValues(cl) {
+			pv := av
+			if mi, isMI := pv.(*ssa.MakeInterface); isMI {
+				pv = mi.X
+			}
+			if ci, isCI := pv.(*ssa.ChangeInterface); isCI {
+				pv = ci.X
+			}
+			if types.Implements(pv.Type(), errT) {
+				wrapped = append(wrapped, pv)
+			}
+		}
+		if len(wrapped) == 0 {
+			out = append(out, a)
+			continue
+		}
+		for _, w := range wrapped {
+			out = append(out, errRootOrigins(w, depth-1)...)
+		}
+	}
+	return out
+}
+
+// variadicArgValues returns the values stored into the implicit slice of a variadic call's last argument.
+func variadicArgValues(cl *ssa.Call) []ssa.Value {
+	args := cl.Call.Args
+	if len(args) == 0 {
+		return nil
+	}
+	sl, ok := args[len(args)-1].(*ssa.Slice)
+	if !ok {
+		return nil
+	}
+	al, ok := sl.X.(*ssa.Alloc)
+	if !ok {
+		return nil
+	}
+	var out []ssa.Value
+	for _, ref := range *al.Referrers() {
+		ia, ok := ref.(*ssa.IndexAddr)
+		if !ok {
+			continue
+		}
+		for _, r2 := range *ia.Referrers() {
+			if st, ok := r2.(*ssa.Store); ok && st.Addr == ssa.Value(ia) {
+				out = append(out, st.Val)
+			}
+		}
+	}
+	return out
 }
